@@ -78,8 +78,13 @@ def dense_counterpart_matrix(spec, dom, dual, parameters=None, precision=None):
     if not (adom.requires_dof_transformation or adual.requires_dof_transformation):
         op = ops.build_boundary(spec, adom, adom, adual, "dense", parameters, precision)
         return op.weak_form().to_dense(), "direct"
-    cdom = untransformed_clone(adom)
-    cdual = cdom if adual is adom else untransformed_clone(adual)
+    try:
+        cdom = untransformed_clone(adom)
+        cdual = cdom if adual is adom else untransformed_clone(adual)
+    except AttributeError as e:
+        # the clone is built from private attributes of FunctionSpace; if a refactoring renamed them there is
+        # no dense counterpart for these spaces (the caller skips the comparison)
+        raise ValueError("no dense counterpart: cannot clone the space (%s)" % e)
     op = ops.build_boundary(spec, cdom, cdom, cdual, "dense", parameters, precision)
     A = op.weak_form().to_dense()
     Td = adom.dof_transformation
